@@ -31,6 +31,7 @@ does not provide yet; it is not claimed.
 Every `theorem` in this file is an obligation audited with `#print axioms`.
 -/
 import Proofs.EmitExact
+import Proofs.EmitFloat
 import Generated.Cons
 import Generated.Fitness
 namespace FV
@@ -203,12 +204,6 @@ theorem C02_loosened_threshold_counterexample :
 
 /-! ## 4. TEST (not part of the proof): the generated binary64 formula takes the same decision -/
 
-open FV.F in
-def toF (o : Option Fit) : Option F :=
-  o.map (fun f => match f.dist with
-    | some vs => Generated.daFitness (vs.map (fun b => if b then one else zero))
-    | none => Generated.cfFitness f.solved f.total)
-
 def tblFits : List (Option Fit) :=
   [some ⟨1, 1, true, none⟩, some ⟨2, 3, false, none⟩, some ⟨0, 1, false, none⟩, none,
    some ⟨2, 2, true, some [true, true]⟩, some ⟨1, 3, false, some [true, false, false]⟩, some ⟨6, 7, false, none⟩]
@@ -230,5 +225,200 @@ def tblFloat53 : List Bool :=
       one hard.length rep.length 0) one
 
 theorem C02_float_formula_agrees_on_table : tblFloat53 = tblExact := by decide +kernel
+
+/-! ## 5. binary64: the acceptance test of the real arithmetic
+
+The same statements for what the code computes: per-constraint `fitness()` (generated `cfFitness` /
+`daFitness`), `_evaluate_constraints` (generated `classMean`), the generated `fitnessFormula` and
+`acceptCmp`, all over `Model/Float53.lean` (round-to-nearest-even after every operation, CPython's
+compensated `sum`).  Magnitude bound: `(h + r) * 2^B ≤ 2^50`, where `h`, `r` are the numbers of hard and
+repetition-bounds constraints and `2^B` bounds every per-constraint denominator (`total`, or the number of
+combinations of a comparison) — e.g. `h + r ≤ 2^25` and every `total ≤ 2^25`, or `h + r ≤ 2^20` and
+`total ≤ 2^30`.  A bound of this kind is necessary: `C02_float_bound_is_needed`. -/
+
+open FV.F in
+/-- **acceptance only if everything succeeded (binary64, generated formula)**: if the acceptance
+    comparison of the source lets the computed fitness through against `expected_fitness = 1.0`, no
+    constraint raised and every constraint reported success -/
+theorem C02_accept_only_if_float (B : Nat) (hard rep : List (Option Fit)) (softMean : F)
+    (hh : AllWf hard) (hr : AllWf rep) (dh : DenomLe B hard) (dr : DenomLe B rep)
+    (hpos : 0 < hard.length + rep.length) (hbound : (hard.length + rep.length) * 2 ^ B ≤ 2 ^ 50)
+    (hacc : Generated.acceptCmp
+      (Generated.fitnessFormula (Generated.classMean (hard.map toF)) (Generated.classMean (rep.map toF))
+        softMean hard.length rep.length 0) one = true) :
+    AllSucceed hard ∧ AllSucceed rep := by
+  apply Classical.byContradiction
+  intro hns
+  have hlt := fitnessF_lt_one B hard rep softMean hh hr dh dr hpos hbound hns
+  simp only [Generated.acceptCmp, fge, fle, toRat_one, decide_eq_true_eq] at hacc
+  exact absurd hlt (not_lt.2 hacc)
+
+open FV.F in
+/-- both directions: under the bound the binary64 acceptance test passes exactly when every constraint
+    succeeded, and then the fitness is exactly 1.0 (the converse is C03's arithmetic) -/
+theorem C02_accept_iff_float (B : Nat) (hard rep : List (Option Fit)) (softMean : F)
+    (hh : AllWf hard) (hr : AllWf rep) (dh : DenomLe B hard) (dr : DenomLe B rep)
+    (hpos : 0 < hard.length + rep.length) (hbound : (hard.length + rep.length) * 2 ^ B ≤ 2 ^ 50) :
+    Generated.acceptCmp
+      (Generated.fitnessFormula (Generated.classMean (hard.map toF)) (Generated.classMean (rep.map toF))
+        softMean hard.length rep.length 0) one = true ↔ (AllSucceed hard ∧ AllSucceed rep) := by
+  constructor
+  · exact C02_accept_only_if_float B hard rep softMean hh hr dh dr hpos hbound
+  · intro ⟨sh, sr⟩
+    have h2 : 0 < 2 ^ B := Nat.pow_pos (by decide)
+    have hB : 2 ^ B ≤ 2 ^ 50 := by
+      have : 1 * 2 ^ B ≤ (hard.length + rep.length) * 2 ^ B := Nat.mul_le_mul_right _ hpos
+      omega
+    have hn : (hard.length + rep.length) * 1 ≤ (hard.length + rep.length) * 2 ^ B :=
+      Nat.mul_le_mul_left _ h2
+    rw [fitnessF_eq_one hard rep softMean hh hr
+      (fun r hr' f hf => by have := dh r hr' f hf; omega)
+      (fun r hr' f hf => by have := dr r hr' f hf; omega) (by omega) sh sr]
+    decide +kernel
+
+/-- a constraint whose evaluation raises keeps the tree from being emitted, in binary64 too -/
+theorem C02_exception_not_satisfied_float (B : Nat) (hard rep : List (Option Fit))
+    (hh : AllWf hard) (hr : AllWf rep) (dh : DenomLe B hard) (dr : DenomLe B rep)
+    (hbound : (hard.length + rep.length) * 2 ^ B ≤ 2 ^ 50)
+    (seen : Bool) (hraised : none ∈ hard ∨ none ∈ rep) : emitsF F.one hard rep seen = false := by
+  have hpos : 0 < hard.length + rep.length := by
+    rcases hraised with h | h
+    · have := List.length_pos_of_mem h; omega
+    · have := List.length_pos_of_mem h; omega
+  cases he : emitsF F.one hard rep seen with
+  | false => rfl
+  | true =>
+    exfalso
+    simp only [emitsF, Generated.emitCondition, Bool.and_eq_true, individualF, Individual.fitness,
+      List.length_map] at he
+    have ⟨ha, hb⟩ := C02_accept_only_if_float B hard rep F.one hh hr dh dr hpos hbound he.1
+    rcases hraised with h | h
+    · obtain ⟨f, hf, _⟩ := ha none h; cases hf
+    · obtain ⟨f, hf, _⟩ := hb none h; cases hf
+
+/-- **emit soundness, binary64.**  `cs` are the hard constraints, `gss` what each repetition-bounds
+    constraint finds in the tree, `st` ANY state of the evaluator's two memo tables.  If
+    `evaluate_individual` (Model/Emit.lean: cache lookup, the generated formula over the generated class
+    means in `Float53`, the generated emission condition with `expected_fitness = 1.0`) yields the tree,
+    then every hard constraint holds in the documented meaning `denote` and every computed repetition
+    bound holds — provided the numbers of combinations / repetition groups are at most `2^B` and
+    `(h + r) * 2^B ≤ 2^50`. -/
+theorem C02_emit_sound_float (B : Nat) (cs : List Cons) (gss : List (List RepGroup)) (t : Tree)
+    (key : Int) (st : EvalState)
+    (hwf : ∀ c ∈ cs, c.WF = true)
+    (hdc : ∀ c ∈ cs, ∀ f, outcome Generated.consCfg t c = some f → f.denom ≤ 2 ^ B)
+    (hdg : ∀ gs ∈ gss, gs.length ≤ 2 ^ B)
+    (hbound : (cs.length + gss.length) * 2 ^ B ≤ 2 ^ 50)
+    (h : key ∈ (evaluateIndividual F.one st
+      (individualF key (cs.map (outcome Generated.consCfg t)) (gss.map (fun gs => some (repFit gs))))).emitted) :
+    (∀ c ∈ cs, denote c t [] [] = true) ∧ (∀ gs ∈ gss, repDenote gs = true) := by
+  rw [C02_source_configuration.2] at h hdc
+  have hh : AllWf (cs.map (outcome OpCfg.fixed t)) := by
+    intro r hr f hf
+    obtain ⟨c, hc, rfl⟩ := List.mem_map.1 hr
+    unfold outcome at hf
+    cases ho : opFit OpCfg.fixed c t [] [] with
+    | error e => simp [ho] at hf
+    | ok x =>
+      obtain ⟨g, σ', ρ'⟩ := x
+      simp only [ho, Option.some.injEq] at hf
+      subst hf
+      exact opFit_wf c t [] [] g σ' ρ' (hwf c hc) ho
+  have hr : AllWf (gss.map (fun gs => some (repFit gs))) := by
+    intro r hr f hf
+    obtain ⟨gs, _, rfl⟩ := List.mem_map.1 hr
+    cases hf
+    exact repFit_wf gs
+  have dh : DenomLe B (cs.map (outcome OpCfg.fixed t)) := by
+    intro r hr f hf
+    obtain ⟨c, hc, rfl⟩ := List.mem_map.1 hr
+    exact hdc c hc f hf
+  have dr : DenomLe B (gss.map (fun gs => some (repFit gs))) := by
+    intro r hr f hf
+    obtain ⟨gs, hgs, rfl⟩ := List.mem_map.1 hr
+    cases hf
+    exact repFit_denom_le B gs (hdg gs hgs)
+  by_cases hpos : 0 < (cs.map (outcome OpCfg.fixed t)).length + (gss.map (fun gs => some (repFit gs))).length
+  · -- the tree was not answered from the cache, and the acceptance comparison passed
+    have hacc : Generated.acceptCmp (individualF key (cs.map (outcome OpCfg.fixed t))
+        (gss.map (fun gs => some (repFit gs)))).fitness F.one = true := by
+      unfold evaluateIndividual at h
+      split at h
+      · simp at h
+      · simp only at h
+        split at h
+        · rename_i he
+          simp only [Generated.emitCondition, Bool.and_eq_true] at he
+          exact he.1
+        · simp at h
+    simp only [individualF, Individual.fitness, List.length_map] at hacc
+    have ⟨ha, hb⟩ := C02_accept_only_if_float B _ _ F.one hh hr dh dr hpos
+      (by simpa only [List.length_map] using hbound) (by simpa only [List.length_map] using hacc)
+    constructor
+    · intro c hc
+      obtain ⟨f, hf, hs⟩ := ha (outcome OpCfg.fixed t c) (List.mem_map.2 ⟨c, hc, rfl⟩)
+      unfold outcome at hf
+      cases ho : opFit OpCfg.fixed c t [] [] with
+      | error e => simp [ho] at hf
+      | ok x =>
+        obtain ⟨g, σ', ρ'⟩ := x
+        simp only [ho, Option.some.injEq] at hf
+        subst hf
+        rw [← (opFit_sound c t [] [] g σ' ρ' ho).2.2]
+        exact hs
+    · intro gs hgs
+      obtain ⟨f, hf, hs⟩ := hb (some (repFit gs)) (List.mem_map.2 ⟨gs, hgs, rfl⟩)
+      cases hf
+      rw [← repFit_success]
+      exact hs
+  · simp only [List.length_map] at hpos
+    have h1 : cs = [] := by cases cs with
+      | nil => rfl
+      | cons x xs => simp at hpos
+    have h2 : gss = [] := by cases gss with
+      | nil => rfl
+      | cons x xs => simp at hpos
+    subst h1; subst h2
+    simp
+
+/-- non-vacuity of `C02_emit_sound_float`: the spec / tree of `C02_emit_example`, first evaluation in
+    the initial state, `B = 1`: every hypothesis holds (so the conclusion is not vacuous) … -/
+example :
+    (∀ c ∈ [exCons11], c.WF = true) ∧
+    (∀ c ∈ [exCons11], ∀ f, outcome Generated.consCfg exTree11 c = some f → f.denom ≤ 2 ^ 1) ∧
+    (∀ gs ∈ [[(⟨2, 2, 2⟩ : RepGroup)]], gs.length ≤ 2 ^ 1) ∧
+    ([exCons11].length + [[(⟨2, 2, 2⟩ : RepGroup)]].length) * 2 ^ 1 ≤ 2 ^ 50 ∧
+    (7 : Int) ∈ (evaluateIndividual F.one EvalState.empty
+      (individualF 7 ([exCons11].map (outcome Generated.consCfg exTree11))
+        ([[(⟨2, 2, 2⟩ : RepGroup)]].map (fun gs => some (repFit gs))))).emitted := by
+  have ho : outcome Generated.consCfg exTree11 exCons11 = some ⟨2, 2, true, some [true, true]⟩ := by
+    decide +kernel
+  refine ⟨by decide, ?_, by decide, by decide, by decide +kernel⟩
+  intro c hc f hf
+  simp only [List.mem_singleton] at hc
+  subst hc
+  rw [ho] at hf
+  cases hf
+  decide
+
+/-- … and in binary64, too, the tree with an unsatisfied combination and the one whose repetition count
+    is out of bounds are not yielded; the satisfied one is yielded once -/
+theorem C02_emit_float_example :
+    (evaluateAll F.one EvalState.empty
+      [individualF 1 ([exCons11].map (outcome OpCfg.fixed
+          (.node "<start>" [.node "<x>" [.leaf (.text [49])], .node "<x>" [.leaf (.text [97])]]))) [],
+       individualF 2 ([exCons11].map (outcome OpCfg.fixed exTree11)) ([[⟨3, 2, 2⟩]].map (fun gs => some (repFit gs))),
+       individualF 3 ([exCons11].map (outcome OpCfg.fixed exTree11)) ([[⟨2, 2, 2⟩]].map (fun gs => some (repFit gs))),
+       individualF 3 ([exCons11].map (outcome OpCfg.fixed exTree11)) ([[⟨2, 2, 2⟩]].map (fun gs => some (repFit gs)))]).2
+      = [3] := by
+  decide +kernel
+
+/-- a magnitude bound is necessary: with `2^53` combinations of which one fails, next to two satisfied
+    constraints, binary64 computes `1.0 + 1.0 + 0.9999999999999999 = 3.0` and the tree IS accepted
+    (here `(h + r) * 2^B = 3 * 2^53`; the theorems above need `≤ 2^50`) -/
+theorem C02_float_bound_is_needed :
+    emitsF F.one [some ⟨1, 1, true, none⟩, some ⟨1, 1, true, none⟩, some ⟨2 ^ 53 - 1, 2 ^ 53, false, none⟩] [] false
+      = true := by
+  decide +kernel
 
 end FV
